@@ -88,7 +88,19 @@ impl Code {
 /// choose a code covering the `used` symbols of an alphabet of `alphabet` symbols
 fn choose_code(rng: &mut Rng, used: &[bool], alphabet: usize, f: &mut Feat) -> Code {
     let mut syms: Vec<usize> = (0..alphabet).filter(|&s| used.get(s).copied().unwrap_or(false)).collect();
-    if syms.is_empty() { syms.push(rng.below(alphabet.min(256) as u64) as usize); }
+    if syms.is_empty() {
+        // an alphabet nothing is coded with (unselected group, or a channel no operation uses): any
+        // valid code may stand there - half of the time a normal code over symbols of the WHOLE
+        // alphabet (incl. its last symbols, e.g. colour-cache symbols), otherwise a single symbol
+        if rng.chance(1, 2) {
+            for _ in 0..(2 + rng.below(5)) {
+                let s = if rng.chance(1, 2) { alphabet - 1 - rng.below((alphabet as u64).min(24)) as usize } else { rng.below(alphabet as u64) as usize };
+                if !syms.contains(&s) { syms.push(s); }
+            }
+        } else {
+            syms.push(rng.below(alphabet.min(256) as u64) as usize);
+        }
+    }
     let all_small = syms.iter().all(|&s| s < 256);
     // simple codes: one symbol (0 bits) or two symbols (1 bit each); first symbol written in 1 or 8 bits
     if syms.len() <= 2 && all_small && (syms.len() == 1 || rng.chance(2, 3)) {
@@ -242,7 +254,7 @@ fn draw(rng: &mut Rng, dom: Domain, palette: &[u32]) -> u32 {
         Domain::Any => if rng.chance(1, 2) { *rng.pick(palette) } else { rng.next() as u32 },
         Domain::Few(_) => *rng.pick(palette),
         Domain::Modes => (rng.below(14) as u32) << 8 | (rng.next() as u32 & 0xff03_0003),
-        Domain::Groups(g) => (rng.below(g as u64) as u32) << 8,
+        Domain::Groups(g) => (if rng.chance(1, 3) { (g as u32).saturating_sub(1) } else if rng.chance(1, 2) { 0 } else { rng.below(g as u64) as u32 }) << 8,
         Domain::Indices(n, per) => {
             // `per` indices below n packed into the green byte
             let bits = 8 / per;
